@@ -2,7 +2,8 @@
 """Reproduction of the decimal-tie defect described in docs/FLOAT.md (coq/Base/FloatDue.v, tie_sharp_512):
 when 512 divides ticks_per_beat, round(current_time, 8) >= round(next_event_time, 8) can answer "not due" on the exact
 onset tick; the event fires one tick late or is lost.  Run:  PYTHONPATH=<isobar repo> /venv/bin/python harness/float_tie_repro.py
-Exit status 1 if a difference from exact arithmetic is observed (expected for tpb = 2560 and 512, not for 480)."""
+Exit status 1 if a difference from exact arithmetic is observed: on repo dcfb371 (test round(a, 8) >= round(b, 8)) for
+tpb = 2560 and 512, not for 480; on repo 9bb39e5 and later (test round(a - b, 8) >= 0) for none - exit status 0."""
 import math
 import sys
 from fractions import Fraction as F
